@@ -633,6 +633,28 @@ def gen_noisy(rng, k, stream, gene, genomes, yaml_text=None, cn_list=None):
             have = {o for p, o in sites if p == pos}
             op = rng.choice([o for o in ("A>C", "T>G", "G>T", "C>A") if o not in have])
             tab.setdefault(pos, []).append([op, runs_of(rng.randint(1, d))])
+        edge_thr = None
+        if rng.random() < 0.3:
+            # sites on the edge of the single-copy fraction threshold: a database substitution whose share of ALL reads of the site is
+            # just below (or exactly at) threshold / (copies + 0.5), next to stray single reads of other bases that fail the noise
+            # cut-off (min_coverage = 2): the share is taken of the whole site
+            edge_thr = rng.choice(["0.5", "0.5", "0.35", "0.8"])
+            t = F(edge_thr) / (F(len(cn)) + F(1, 2))
+            for (pos, op) in rng.sample(order, min(len(order), rng.choice([1, 2, 3]))):
+                if len(op) != 3 or op[1] != ">":
+                    continue
+                n = rng.randint(15, 40)
+                v = -(-(t * n).numerator // (t * n).denominator)           # least count with v / n >= t
+                strays = [o for o in ("A>C", "A>G", "A>T", "C>A", "C>G", "C>T", "G>A", "G>C", "G>T", "T>A", "T>C", "T>G")
+                          if o[0] == op[0] and o != op and (pos, o) not in sites]
+                k_ = 0
+                while F(v, n + k_) >= t and k_ < len(strays):
+                    k_ += 1
+                if rng.random() < 0.3:
+                    k_ = max(0, k_ - 1)
+                cells = [["_", runs_of(n - v, rng, 0)], [op, runs_of(v, rng, 0)]] + [[o, runs_of(1, rng, 0)] for o in strays[:k_]]
+                rng.shuffle(cells)
+                tab[pos] = [cl for cl in cells if cl[1]]
         indels = None
         if rng.random() < 0.25:            # an indel table as the realigner would produce it: (reads without, reads with)
             indels = []
@@ -648,6 +670,8 @@ def gen_noisy(rng, k, stream, gene, genomes, yaml_text=None, cn_list=None):
             prof["min_coverage"] = rng.choice(["1", "2", "5", "2.5"])
         if rng.random() < 0.1:
             prof["major_novel"] = rng.choice(["0.5", "2", "21"])
+        if edge_thr is not None:
+            prof["threshold"], prof["min_coverage"] = edge_thr, "2"
         c = {"stream": stream, "gene": gene, "genome": genome, "cn": cn,
              "table": [[p, ops] for p, ops in tab.items()], "indels": indels, "profile": prof, "planted": None}
         if yaml_text:
